@@ -84,8 +84,9 @@ def basics_part(ctx, rng):
     from harness import reps
     from harness.tlc import run_tlc
     from gym_gridverse.grid_object import Floor as FloorCls
+    from harness import custom  # noqa: F401  (Coin, then Gem: the registration order of the specification's TypeSeq)
     recs = []
-    objs = reps.objects_of(steps.FAMILY_TYPES, steps.ALL_COLORS[1:]) + [proj.NONE_OBJ, proj.HIDDEN, O('Box', 0, 'NONE', O('Box', 0, 'NONE', O('Key', 0, 'RED')))]
+    objs = reps.objects_of(steps.FAMILY_TYPES, steps.ALL_COLORS[1:]) + [proj.NONE_OBJ, proj.HIDDEN, O('Box', 0, 'NONE', O('Box', 0, 'NONE', O('Key', 0, 'RED'))), O('Coin'), O('Gem')]
     for oj in objs:
         o = proj.obj_from_json(oj)
         recs.append({'kind': 'object', 'obj': proj.obj_to_json(o), 'type_index': int(type(o).type_index()), 'num_states': int(type(o).num_states()),
